@@ -27,6 +27,13 @@ def standard(ctx, pid, run_targets, stages, known_bits=None, rule="", assumption
     """stages(ctx, mult, suffix, seed_offset) runs the harness stages.  If the proof or the
     correspondence is broken and no failing input was seen, search with more cases (DESIGN §1.3)."""
     P = core.proof_stage(pid, run_targets)
+    if ctx.tier == "thorough" and P.get("ok"):
+        # independent re-check of the compiled theorems and of everything they depend on
+        ck = core.coqchk_stage(pid)
+        P["coqchk"] = ck
+        if not ck.get("ok"):
+            P["ok"] = False
+            P.setdefault("open", {})["coqchk"] = "coqchk: %s" % {k: v for k, v in ck.items() if k != "log"}
     if P.get("model_builds", False):
         stages(ctx, 1, "", 0)
         broken = (not P["ok"]) or any(s.errors or any(c & 1 for _, c, _ in s.failing) for s in ctx.stages)
@@ -34,6 +41,8 @@ def standard(ctx, pid, run_targets, stages, known_bits=None, rule="", assumption
         if broken and not found and ctx.replay is None:
             core.log("%s: proof or correspondence broken; searching for a failing input with more cases" % pid)
             stages(ctx, 5, "search", 7777)
+    if P.get("coqchk"):
+        extra = dict(extra or {}, coqchk={k: v for k, v in P["coqchk"].items() if k != "log"})
     return core.finish(ctx, pid, P, known_bits=known_bits, rule=rule, assumptions=assumptions, extra=extra, explain=explain)
 
 
